@@ -388,6 +388,12 @@ func VX_C02_leaf() {
 	case "and_inv":
 		K.Inverse = true
 		clause = And(L, K)
+	case "or_notinv": // a doubly negated leaf (Not of an inverted filter) next to another leaf in an Or
+		K.Inverse = true
+		clause = Or(Not(K), L)
+	case "and_notinv":
+		K.Inverse = true
+		clause = And(L, Not(K))
 	case "or_notl":
 		clause = Or(K, Not(L))
 	case "or_notk":
@@ -420,9 +426,9 @@ func VX_C02_leaf() {
 			want = kv
 		case "not", "inv", "not_and1":
 			want = vx.Not(kv)
-		case "and", "and_rev":
+		case "and", "and_rev", "and_notinv":
 			want = vx.And(kv, lv)
-		case "or", "or_rev":
+		case "or", "or_rev", "or_notinv":
 			want = vx.Or(kv, lv)
 		case "or_notl":
 			want = vx.Or(kv, vx.Not(lv))
